@@ -14,7 +14,9 @@ import re
 
 from .. import analysis
 from ..astutil import calls_in, call_name, where, local_assignments, atoms_at
-from ..logic import known, labels_in
+from ..logic import known, labels_in, entails, reach_avoiding
+from ..dataflow import node_defs
+from ..symtext import Expander
 from ..cfg import enclosing_handlers
 from ..dataflow import reaching_defs, def_value
 from ..facts import instance_fields
@@ -75,7 +77,7 @@ def run(prog, rep):
                 for test, pol, br in g.dominating_conditions(node):
                     if pol != "false":
                         continue
-                    atoms = [norm_text(x) for x in ast.walk(test) if isinstance(x, ast.Compare)]
+                    atoms = [norm_text(an.alias_expander(f).expand(x, br)) for x in ast.walk(test) if isinstance(x, ast.Compare)]
                     if want in atoms:
                         t_side = br.out("true")
                         if t_side and not g.reaches(t_side[0], node, skip_kinds=("exc", "back")) and \
@@ -165,47 +167,50 @@ def run(prog, rep):
                       % (v, val, lists[0]), where(f, n.ast), witness="rename a child to the name of its sibling: accepted")
 
     # ---------------------------------------------------------------- PROV-1
-    rep.rule("PROV-1", "constructors of Section and Property: the branch `if not name` dominates the store `self._name = name`, "
-                       "re-binds name to self._id on its true side (the only re-binding), and self._id has been stored on every "
-                       "path reaching it (including the path through the ValueError handler)")
+    rep.rule("PROV-1", "constructors of Section and Property, path form: every value stored to _name is self._id, or the `name` parameter on "
+                       "paths that either know it is truthy or re-bound it to self._id; self._id has been stored on every path reaching "
+                       "the store (including the path through the ValueError handler of the id parsing)")
     for cname in ("BaseSection", "BaseProperty"):
         f = prog.cls(cname).lookup_method("__init__")
         rep.saw_function(f)
         g = S.cfg(f)
         me = f.params[0]
+        x = Expander(f, g, inline=prog)
+        if "name" not in f.params:
+            raise AnalysisError("%s.__init__ has no name parameter" % cname)
         stores = [n for n in g.nodes if n.kind == "stmt" and isinstance(n.ast, ast.Assign) and unparse(n.ast.targets[0]) == "%s._name" % me]
-        rep.check(len(stores) == 1 and unparse(stores[0].ast.value) == "name", "PROV-1", "%s.__init__ stores the name once" % cname, "self._name = name",
-                  "expected exactly one `self._name = name` store", f.where)
-        if len(stores) != 1:
-            continue
-        st = stores[0]
-        brs = [b for b in g.nodes if b.kind == "branch" and unparse(b.ast.test) == "not name" and g.dominates(b, st)]
-        rep.check(len(brs) == 1, "PROV-1", "%s.__init__: `if not name` dominates the name store" % cname, "ok",
-                  "no `if not name` test dominates `self._name = name`: on some path (e.g. through the malformed-id handler) an empty "
-                  "name is stored", where(f, st.ast), witness="%s(name=None, oid='garbage').name is None" % cname[4:])
-        if len(brs) == 1:
-            b = brs[0]
-            defs = reaching_defs(g, st, "name")
-            good = True
-            for d in defs:
-                if d.kind == "entry":
-                    continue
-                v = def_value(d, "name")
-                tside = b.out("true")
-                if not (v is not None and unparse(v) == "%s._id" % me and tside and g.dominates(tside[0], d)):
-                    good = False
-            fall = [d for d in defs if d.kind != "entry"]
-            # the fallback assignment lies on every path from the true side to the store
-            rep.check(good and len(fall) == 1 and not g.reaches(b.out("true")[0], st, skip_kinds=("exc",)) or
-                      (good and len(fall) == 1 and _all_paths_pass(g, b.out("true")[0], st, fall[0])), "PROV-1",
-                      "%s.__init__: empty name is replaced by the id" % cname, "name = self._id",
-                      "the fallback `name = self._id` does not lie on every path from `if not name` to the store", where(f, b.ast))
-            idst = [n for n in g.nodes if n.kind == "stmt" and isinstance(n.ast, ast.Assign) and unparse(n.ast.targets[0]) == "%s._id" % me]
-            # on every path to the fallback some _id store happened: remove the stores and test reachability
-            blocked = set(n.id for n in idst)
-            reach = _reach_without(g, g.entry, b, blocked)
-            rep.check(not reach, "PROV-1", "%s.__init__: _id is set before the fallback" % cname, "ok",
-                      "a path reaches the name fallback before any _id store", where(f, b.ast))
+        rep.floor("PROV-1", len(stores), 1, "stores to _name in %s.__init__" % cname)
+        idst = set(n.id for n in g.nodes if n.kind == "stmt" and isinstance(n.ast, ast.Assign) and unparse(n.ast.targets[0]) == "%s._id" % me)
+        for st in stores:
+            for expr, atoms in _value_cases(x.expand(st.ast.value, st)):
+                t = unparse(expr)
+                if t == "%s._id" % me:
+                    good, why = True, "the id"
+                elif t == "name":
+                    if ("name", True) in atoms:
+                        good, why = True, "known to be non-empty"
+                    else:
+                        rebind = set(d.id for d in g.nodes if d.kind == "stmt" and isinstance(d.ast, ast.Assign)
+                                     and any(isinstance(t0, ast.Name) and t0.id == "name" for t0 in d.ast.targets)
+                                     and unparse(d.ast.value) == "%s._id" % me)
+                        other_defs = [d for d in g.nodes if "name" in node_defs(d) and d.id not in rebind and d.kind != "entry"]
+
+                        def edge_ok(src, kind, dst, rebind=rebind):
+                            if dst.id in rebind:
+                                return True
+                            return src.kind == "branch" and kind in ("true", "false") and \
+                                entails(src.ast.test, kind == "true", lambda lf: "N" if isinstance(lf, ast.Name) and lf.id == "name" else None,
+                                        lambda a0: a0["N"], ["N"])
+                        good = not other_defs and not reach_avoiding(g, g.entry, st, edge_ok, skip_kinds=())
+                        why = "every path knows a non-empty name or re-binds it to the id"
+                else:
+                    good, why = False, ""
+                rep.check(good, "PROV-1", "%s.__init__: _name = %s" % (cname, t[:30]), why,
+                          "%s.__init__ can store `%s` as name on a path where it may be empty (e.g. through the malformed-id handler)" % (cname, t[:50]),
+                          where(f, st.ast), witness="%s(name=None, oid='garbage').name is None" % cname[4:])
+            reach = _reach_without(g, g.entry, st, idst)
+            rep.check(not reach, "PROV-1", "%s.__init__: _id is set before the name" % cname, "ok",
+                      "a path reaches the name store before any _id store", where(f, st.ast))
 
     # ---------------------------------------------------------------- PROV-2
     rep.rule("PROV-2", "stores to _id: only in __init__ and new_id of the three model classes; value is str(uuid.UUID(<oid>)) or "
@@ -224,21 +229,25 @@ def run(prog, rep):
             g = S.cfg(f)
             me = f.params[0]
             stores = [n for n in g.nodes if n.kind in ("stmt",) and isinstance(n.ast, ast.Assign) and unparse(n.ast.targets[0]) == "%s._id" % me]
-            rep.floor("PROV-2", len(stores), 2, "stores to _id in %s" % f.short)
+            x = Expander(f, g, inline=prog)
+            cases = []        # (store node, shape, atoms from conditional expressions in the value)
             for n in stores:
+                for shape, extra in _id_cases(x.expand(n.ast.value, n)):
+                    cases.append((n, shape, extra))
+            skel = []
+            for n, shape, extra in cases:
                 n_id += 1
-                v = unparse(n.ast.value)
-                shape = _id_shape(n.ast.value)
-                canonical = shape is not None
+                rep.check(shape is not None, "PROV-2", "%s: _id = %s" % (f.short, x.text(n.ast.value, n)[:40]), "canonical uuid text",
+                          "_id is stored as %s, not as str(uuid.uuid4()) / str(uuid.UUID(..))" % x.text(n.ast.value, n)[:80], where(f, n.ast),
+                          witness="an id in upper case / with braces / garbage is kept verbatim")
+                hs = enclosing_handlers(g, n)
                 if shape and shape[0] == "parse":
-                    hs = enclosing_handlers(g, n)
                     if fname == "__init__":
                         ok = False
                         for h in hs:
                             for k, hn in h.succ:
                                 if k == "except" and any(c in ("ValueError", "Exception", "*") for c in hn.info["classes"]):
-                                    sub = [m for m in g.nodes if g.dominates(hn, m) and m.kind == "stmt" and isinstance(m.ast, ast.Assign)
-                                           and unparse(m.ast.targets[0]) == "%s._id" % me and _id_shape(m.ast.value) == ("fresh",)]
+                                    sub = [m for m, sh2, _ in cases if g.dominates(hn, m) and sh2 == ("fresh",)]
                                     ok = ok or bool(sub)
                         rep.check(ok, "PROV-2", "%s: malformed id is replaced" % f.short, "except ValueError: fresh uuid4",
                                   "a malformed oid is not replaced by a fresh id in the constructor", where(f, n.ast),
@@ -247,23 +256,19 @@ def run(prog, rep):
                         rep.check(not hs, "PROV-2", "%s: malformed id is rejected" % f.short, "no handler around uuid.UUID",
                                   "new_id catches the ValueError of a malformed id instead of rejecting it", where(f, n.ast),
                                   witness="obj.new_id('garbage') succeeds")
-            # skeleton: one entry per _id store = (value shape, what is known about the id parameter there, classes of the
-            # handlers around it, classes of the handler it sits in); insensitive to names, nesting, branch order, messages
-            skel = []
-            for n in stores:
-                shape = _id_shape(n.ast.value)
-                names = set(x.id for x in ast.walk(n.ast.value) if isinstance(x, ast.Name)) - set(["str", "uuid", me])
+                # skeleton entry: (value shape, what is known about the id parameter there, handler classes around / containing it)
                 facts = set()
-                for t, pol, _ in atoms_at(g, n):
+                for t, pol in [(t0, p0) for t0, p0, _ in atoms_at(g, n)] + list(extra):
                     hit = [p for p in f.params[1:] if re.search(r"(?<![\w.])%s\b" % re.escape(p), t)]
                     if hit:
                         for p in hit:
                             t = re.sub(r"(?<![\w.])%s\b" % re.escape(p), "ID", t)
                         facts.add("%s=%s" % (t, pol))
-                around = sorted(set(c for h in enclosing_handlers(g, n) for k, hn in h.succ if k == "except" for c in hn.info["classes"]))
+                around = sorted(set(c for h in hs for k, hn in h.succ if k == "except" for c in hn.info["classes"]))
                 inside = sorted(set(c for hn in g.nodes if hn.kind == "handler" and g.dominates(hn, n) for c in hn.info["classes"]))
                 skel.append("%s if {%s} try-except(%s) in-handler(%s)" % (shape and shape[0], ", ".join(sorted(facts)), ",".join(around), ",".join(inside)))
             shapes[fname][cname] = " | ".join(sorted(skel))
+            rep.floor("PROV-2", len(cases), 2, "values stored to _id in %s" % f.short)
     # foreign writers
     for f in prog.all_functions():
         for n in walk_no_nested(f.node):
@@ -274,7 +279,7 @@ def run(prog, rep):
                         n_ok = f.cls is not None and f.cls.name in MODEL and f.name in ("__init__", "new_id")
                         rep.check(n_ok, "PROV-2", "%s stores _id" % f.short, "constructor or new_id",
                                   "%s stores _id directly" % f.short, where(f, n))
-    rep.floor("PROV-2", n_id, 12, "stores to _id")
+    rep.floor("PROV-2", n_id, 12, "values stored to _id")
 
     # ----------------------------------------------------------------- SIB-1
     rep.rule("SIB-1", "the id block of __init__ and the body of new_id have the same skeleton (id stores, tests, handler classes) in Document, Section and Property")
@@ -309,6 +314,27 @@ def _id_shape(value):
     if fn == "UUID" and len(inner.args) == 1:
         return ("parse", unparse(inner.args[0]))
     return None
+
+
+def _value_cases(value, atoms=()):
+    """[(expr, atoms)] of a (possibly conditional / `a or b`) value expression"""
+    from ..astutil import atoms_of
+    if isinstance(value, ast.IfExp):
+        return _value_cases(value.body, tuple(atoms) + tuple(atoms_of(value.test, True))) + \
+            _value_cases(value.orelse, tuple(atoms) + tuple(atoms_of(value.test, False)))
+    if isinstance(value, ast.BoolOp) and isinstance(value.op, ast.Or) and len(value.values) == 2:
+        return [(value.values[0], tuple(atoms) + tuple(atoms_of(value.values[0], True)))] + \
+            _value_cases(value.values[1], tuple(atoms) + tuple(atoms_of(value.values[0], False)))
+    return [(value, tuple(atoms))]
+
+
+def _id_cases(value, atoms=()):
+    """[(shape, atoms)] of a (possibly conditional) value expression"""
+    from ..astutil import atoms_of
+    if isinstance(value, ast.IfExp):
+        return _id_cases(value.body, tuple(atoms) + tuple(atoms_of(value.test, True))) + \
+            _id_cases(value.orelse, tuple(atoms) + tuple(atoms_of(value.test, False)))
+    return [(_id_shape(value), tuple(atoms))]
 
 
 def _reach_without(g, a, b, blocked):
